@@ -249,6 +249,7 @@ class Program:
         self.inlined_constants = normalise.inline_new_constants(trees)
         self.expanded_helpers = normalise.expand_new_helpers(trees)
         self.comprehension_rewrites = normalise.comprehension_form(trees)
+        normalise.extend_form(trees)
         # locals get their reference names back before "new relative to the reference" is decided by name
         for rel, tree in trees.items():
             alpha.normalise_module(tree, rel)
